@@ -321,6 +321,50 @@ theorem textCert_mono (fin : F → Bool) (fmt : F → List Char) (pn pn' : List 
 end
 
 
+/-! ### corollaries: soundness and the full round trip at text level -/
+
+/-- **C06_text_decode_lit_sound**: whenever `Decode` (scan, literal-level Unmarshal, FromGeoJSON) succeeds on a text,
+the text is an RFC 8259 JSON object without bad member whose effective members are exactly the RFC 7946 geometry
+object of the result — at text level nothing but 2-D RFC 7946 geometry objects with in-range numbers is accepted. -/
+theorem C06_text_decode_lit_sound (lp : List Char → Option L) (conv : L → Option F) (txt : List Char) (g : Geom F)
+    (h : decodeText lp conv txt = some (.ok g)) :
+    ∃ kvs ty c, Json.parse lp txt = some (.obj kvs) ∧ kvs.any (badMember conv) = false ∧
+      unmarshal (.obj (effective conv kvs)) = .ok (ty, c) ∧
+      Rfc.read (.obj [("type", .str ty), ("coordinates", c)]) = some g ∧
+      supported g = true ∧ firstMemberNonEmpty g = true := by
+  unfold decodeText at h
+  cases hp : Json.parse lp txt with
+  | none => rw [hp] at h; cases h
+  | some tl =>
+    rw [hp] at h
+    simp only [Option.map, Option.some.injEq] at h
+    obtain ⟨kvs, ty, c, ht, hb, hu, hr, hs, hne⟩ := C06_decode_lit_sound conv tl g h
+    subst ht
+    exact ⟨kvs, ty, c, rfl, hb, hu, hr, hs, hne⟩
+
+section
+variable [DecidableEq F]
+
+/-- **C06_text_roundtrip_lit** (the round-trip clause at text level, end to end in the model, with the overflow-aware
+`json.Unmarshal`): under the number-text contract for the composite reader `lp ; conv`, for every supported finite
+geometry whose first member has a vertex, `Decode` of the text `json.Marshal` writes for `ToGeoJSON g` is `g`. -/
+theorem C06_text_roundtrip_lit (fin : F → Bool) (fmt : F → List Char) (lp : List Char → Option L) (conv : L → Option F)
+    (hn : Json.NumFmt fin fmt (fun tok => (lp tok).bind conv)) (g : Geom F) (hs : supported g = true)
+    (hf : allFinite fin g = true) (hne : firstMemberNonEmpty g = true) :
+    ∃ o, toGeoJSON g = .ok o ∧ decodeText lp conv (renderGeometry fmt o) = some (.ok g) := by
+  obtain ⟨o, ho, hc⟩ := C06_text_cert_complete fin fmt _ hn g hs hf
+  obtain ⟨tl, t, _, _, _, _, hd⟩ := C06_text_decode_lit fin fmt lp conv g _ hc
+  exact ⟨o, ho, hd hne⟩
+
+/-- non-vacuity of the contract for a composite reader: integer literals, conversion total -/
+example : Json.NumFmt (fun _ : Int => true) GeomV.C17.intFmt (fun tok => (GeomV.C17.intOfLit tok).bind some) := by
+  have h := C06_numfmt_int
+  refine ⟨h.nonempty, h.alphabet, ?_⟩
+  intro x hx
+  have := h.roundtrip x hx
+  simp [this]
+end
+
 /-! ### the instance the driver runs -/
 
 theorem jsonPn_le_raw (tok : List Char) (x : UInt64) (h : jsonPn tok = some x) :
